@@ -13,6 +13,7 @@ CLAIMED={
  "C09":("exploration","storage-level operation sequences on each backend (trait writes + OpenMLS StorageProvider writes with harness blobs) interleaved with snapshot create/rollback/release/list/prune/reopen, with a full dump of every read method around each of them (restored part equals the dump at snapshot time, everything else equals the dump just before); plus a frame check around every rollback in world runs","§8 C09","snapshot of a missing group / rollback onto a taken Nostr id are outside the contract"),
  "C10":("exploration","three-way differential over seeded operation sequences: memory backend vs SQLite backend (with reopen) vs executable reference model of the storage contract, canonical results compared per call","§8 C10","inputs within both backends' validation limits; unordered results compared as sets"),
  "C18":("exploration","message-heavy world runs with forced timestamp ties: after every step default order == documented total order and last-message pointer == first non-invalidated message; periodically both sort modes, page concatenation for sizes 1/2/3/7, limit bounds, offsets beyond the end; storage-level ordering is part of C10","§8 C18","'not invalidated' = state other than epoch_invalidated"),
+ "C12":("fault_enumeration","per sampled API call of every operation kind in seeded SQLite histories the storage tick indices are enumerated (quick: first, last + 6 sampled; thorough: every k): re-execution to the call, process death at tick k with a directory image (hot journal included), reopen, repeat the call, run the rest + quiescence, compare with the uninterrupted run; explicit snapshot/restore/relay transactions are checked all-or-nothing","§8 C12","process death, not power loss; one crash per execution; histories and calls are sampled, tick positions are enumerated"),
 }
 checks=[]
 for pid,(cat,text,ref,note) in CLAIMED.items():
